@@ -24,9 +24,8 @@ def prepare(run, thorough):
     outp = os.path.join(run.tmp, "crypto-peer.ndjson")
     run.tlc("Crypto_gen.tla", "genp.cfg", workers=1, timeout=900, env={"VERIF_OUT": outp},
             cfg_text=MC.format(fields='{"a","b"}', peer=1, upd=2, rule="specified", body="ACTION_CONSTRAINT ExportPeerLeaves"), label="GEN_Crypto(behaviours with a key-less peer write)")
-    if os.path.exists(outp):
-        with open(out, "a") as f:
-            f.write(open(outp).read())
+    if not os.path.exists(outp):
+        raise vlib.Infra("no behaviour with a peer write exported")
     if not os.path.exists(out) or not os.path.exists(out + ".sig"):
         raise vlib.Infra("Crypto_gen exported nothing")
     return out
